@@ -152,10 +152,10 @@ def ref_logprob_row(sp, squash, lg, log_std, a, u=None):
     else:
         x, aa = a, a
     lp = float(np.sum(-((x - lg) ** 2) / (2 * sig * sig) - np.log(sig) - 0.5 * math.log(2 * math.pi)))
-    sl = 0.0
+    sl = float(sum(E.normal_slack(m, s_, x_) for m, s_, x_ in zip(lg, sig, x)))
     if squash:
         lp -= float(np.sum(np.log(1.0 - aa * aa + 1e-6)))
-        sl = float(np.sum(5e-7 / np.maximum(1.0 - aa * aa + 1e-6, 1e-6)))
+        sl += float(np.sum(5e-7 / np.maximum(1.0 - aa * aa + 1e-6, 1e-6)))
     return lp, sl
 
 
@@ -222,12 +222,13 @@ class C16(vlib.Driver):
 
     def generate(self, tier, rng):
         cases = []
-        reps = 1 if tier == "quick" else 12
+        reps = 1 if tier == "quick" else 8
+        actor_reps = 3 if tier == "quick" else 4          # actor-level cases are cheap (no agent construction)
         for rep in range(reps):
             for sp in self.space_grid(rng, tier):
                 box = sp["kind"] == "box"
                 for api, scen, variant in [("actor", "fresh", ""), ("actor", "reeval", ""), ("actor", "stored", "same"),
-                                           ("actor", "stored", "other"), ("ppo", "ppo_get", ""), ("ppo", "ppo_eval", "same"),
+                                           ("actor", "stored", "other")] * actor_reps + [("ppo", "ppo_get", ""), ("ppo", "ppo_eval", "same"),
                                            ("ppo", "ppo_eval", "other")]:
                     for flag in (False, True):
                         squash = flag if box else (rng.random() < 0.15)     # squash requested on a non-Box space is ignored by the code
